@@ -162,6 +162,16 @@ def run(ctx):
             got = v[2]
             if inside and v[3] != 2:
                 ctx.violation("mut:PH-side", {"line": line}, "period incrementHour(limit) changed the minute: " + line)
+        # every start value 0..255 of an unsigned field must end up inside the documented interval (the property quantifies
+        # over all field values 0..255); the signed yearTiny is only examined from inside its interval
+        lo_hi = {"Mo": (1, 12), "D": (1, 31), "Hr": (0, 23), "Mi": (0, 59), "PMi": (0, 59), "PH24": (0, 23)}.get(k)
+        if k == "PH":
+            lo_hi = (0, v[1] - 1)
+        if lo_hi is not None and not inside:
+            ctx.count("mutation_cases_from_outside_interval")
+            if not lo_hi[0] <= got <= lo_hi[1]:
+                ctx.violation("mut-range:%s:%s" % (k, v[0] if k != "PH" else "limit"), {"line": line},
+                              "increment helper %s left the field at %d, outside [%d, %d], starting from %d: %s" % (k, got, lo_hi[0], lo_hi[1], v[0], line))
         if inside:
             ctx.count("mutation_cases_inside_interval")
             if want == 0 or (k in ("Mo", "D") and want == 1):
